@@ -6,6 +6,7 @@ set_option linter.unusedSimpArgs false
 set_option linter.unusedVariables false
 namespace Lemmas
 open Gen.Bumping Rs C11
+attribute [local congr] rs_bind_congr rs_ite_congr
 
 /- common set-up of the two halves of the proof (`size_is_const` false / true): unfold,
     discharge `debug_assert_valid`, name the components, collect the facts about
